@@ -98,7 +98,7 @@ class GenProxy:
             if k == "choice":
                 return seam.gen_choice(self, a, args, kw)
             if k in ("uniform", "random") and not args and not kw:
-                pol.on_draw(name, k, None)
+                pol.on_draw(name, k, self)
                 v = pol.threshold(name, k)
                 if v is not None:
                     pol.n_scripted += 1
@@ -108,7 +108,7 @@ class GenProxy:
                 v = a()
                 seam.log_draw(name, k, "real", v)
                 return v
-            pol.on_draw(name, k, None)
+            pol.on_draw(name, k, self)
             out = a(*args, **kw)
             seam.log_draw(name, k, "real", _shape_of(out))
             return out
@@ -171,7 +171,7 @@ class Seam:
         a = args[0] if args else kw.get("a")
         size = args[1] if len(args) > 1 else kw.get("size")
         p = args[3] if len(args) > 3 else kw.get("p")
-        pol.on_draw(proxy._name, "choice", None)
+        pol.on_draw(proxy._name, "choice", proxy)
         if p is not None:
             n = int(a) if isinstance(a, (int, np.integer)) else len(a)
             k = 1 if size is None else int(np.prod(size))
